@@ -67,7 +67,7 @@ public:
 
   double pProb(double x) const
   {
-    return 1. - exp(-lambda_ * x);
+    return x <= 0 ? 0. : 1. - exp(-lambda_ * x);
   }
 
   double qProb(double x) const
@@ -77,7 +77,7 @@ public:
 
   double Expectation(double a) const
   {
-    return 1. / lambda_ - exp(-a * lambda_) * (a + 1. / lambda_);
+    return a <= 0 ? 0. : 1. / lambda_ - exp(-a * lambda_) * (a + 1. / lambda_);
   }
 };
 } // end of namespace bpp.
